@@ -29,6 +29,11 @@ def unsupported_pool(k):
         f'goto L{k};', f'int {f} = 5;', f'int {f}[3];', f'int *{f};',
         f'for ({f} = 0; {f} < 10; {f}++) {{ {g} = {g} + 1; }}', f'{f} = {g} / 2;', f'{f} = {g} % 2;',
         f'{f} = foo{k}({g});', f'{f} = {g}[1];', f'{f}.fld = 1;', f'{f} = {g} * ({g} + 1);', f'{f} = {g}->x;',
+        # unsupported expressions inside otherwise supported statement shells
+        f'return foo{k}({g});', f'return {g}[1];', f'return {f} ? {g} : 1;', f'return {f} + {g} + {f};', f'return *{f};',
+        f'{f} = -({g} + 1);', f'{f} = (int)foo{k}({g});', f'{f} = - -{g};', f'{f} = !({g}++);', f'-({g}++);',
+        f'{f} ? ({g} = 1) : ({g} = 2);', f'{f} ? {g}++ : {g}--;', f'{f}[0];', f'(int){f}[{g}];', f'foo{k}({f}), {f}[0] = {g};',
+        f'L{k}x: {f} = foo{k}({g});', f'{f} = &{g};', f'{f} = sizeof({g}[0]);',
     ]
 
 
